@@ -132,7 +132,10 @@ def same_id_worlds():
         y = x.replace(one=DL(1, nc=9))      # content-equal, other non-comparable value below; may share x's id
         return DP(items=(x, y))
 
-    return [("same-id-via-replace", via_replace), ("same-id-via-detach", via_detach), ("same-id-nested", nested)]
+    def wide():
+        return DP(one=DL(0), items=tuple(DL(i % 4, nc=i) for i in range(12)))   # 12 elements with twins (two-digit suffixes)
+
+    return [("same-id-via-replace", via_replace), ("same-id-via-detach", via_detach), ("same-id-nested", nested), ("wide-tuple", wide)]
 
 
 def build_indexed(builder):
